@@ -1,6 +1,6 @@
 use std::{fmt::Debug, time::Duration};
 
-use bytes::{BufMut, BytesMut};
+use bytes::{Buf, BufMut, BytesMut};
 use if_chain::if_chain;
 use tokio::{
     io::{AsyncRead, AsyncReadExt, AsyncWrite, AsyncWriteExt},
@@ -31,6 +31,11 @@ pub struct Framed {
     codec: Codec,
     buffer: BytesMut,
     verify_version: bool,
+    // Keep-alive reply bytes not yet accepted by the transport. Kept here, rather than in the
+    // read future, so that dropping a pending read (i.e. in a select!) cannot tear the frame.
+    pending_write: BytesMut,
+    // Packet already removed from `buffer`, to be returned once its reply has been flushed.
+    pending_packet: Option<Packet>,
 }
 
 impl Framed {
@@ -43,6 +48,8 @@ impl Framed {
             codec,
             buffer,
             verify_version: false,
+            pending_write: BytesMut::new(),
+            pending_packet: None,
         }
     }
 
@@ -83,9 +90,31 @@ impl Framed {
         Ok(size)
     }
 
+    /// Write out whatever is left of a keep-alive reply. Cancel safe: progress is recorded in
+    /// `pending_write` within the same poll that the transport accepts the bytes.
+    async fn flush_pending(&mut self) -> Result<()> {
+        while !self.pending_write.is_empty() {
+            let n = self.inner.write(&self.pending_write).await?;
+            if n == 0 {
+                return Err(std::io::Error::from(std::io::ErrorKind::WriteZero).into());
+            }
+            self.pending_write.advance(n);
+        }
+
+        Ok(())
+    }
+
     /// Asynchronously wait for a packet from the inner network.
+    /// This method is cancel safe: if the returned future is dropped before completion no
+    /// received packet is lost and no partial frame is left on the wire.
     pub async fn read(&mut self) -> Result<Packet> {
         loop {
+            // finish anything a previous (possibly cancelled) call started
+            self.flush_pending().await?;
+            if let Some(packet) = self.pending_packet.take() {
+                return Ok(packet);
+            }
+
             if_chain! {
                 if !self.buffer.is_empty();
                 if let Some(packet) = self.codec.decode(&mut self.buffer)?;
@@ -98,7 +127,10 @@ impl Framed {
                     // keepalive
                     if let Some(pong) = packet.maybe_pong() {
                         tracing::debug!("Ping? Pong!");
-                        self.write(pong).await?;
+                        let buf = self.codec.encode(&pong)?;
+                        self.pending_write.extend_from_slice(&buf);
+                        self.pending_packet = Some(packet);
+                        continue;
                     }
 
                     return Ok(packet);
@@ -132,6 +164,8 @@ impl Framed {
 
     /// Asynchronously write a packet to the inner network.
     pub async fn write<P: Into<Packet>>(&mut self, packet: P) -> Result<()> {
+        // never interleave with a keep-alive reply that is still partially written
+        self.flush_pending().await?;
         let mut buf = self.codec.encode(&packet.into())?;
         if !buf.is_empty() {
             self.inner.write_all_buf(&mut buf).await?;
